@@ -505,7 +505,7 @@ def get_first_job_input_volume(
 
     # Coordinate of the source IFM block
     ifm_coord_x = max(0, ofm_coord[0] * kernel.stride.x - padding.left)
-    ifm_coord_y = max(0, ofm_coord[1] * kernel.stride.y - padding.right)
+    ifm_coord_y = max(0, ofm_coord[1] * kernel.stride.y - padding.top)
     ifm_coord_z = ifm.z + (block_offset % ifm_depth_blocks) * ifm_block.depth
 
     # IFM block that will be sampled for the FIRST+block_offset job in the next operator's OFM
